@@ -504,6 +504,11 @@ func (q *checker) bcheckAssignment(lhs *a.Expr, op t.ID, rhs *a.Expr) error {
 				if x.Mentions(recv) {
 					return nil, nil
 				}
+				// Drop any old facts involving an element of a slice: the
+				// slice may alias storage that the callee modifies.
+				if mentionsSliceElement(x) {
+					return nil, nil
+				}
 				// Drop any facts involving a pass-by-reference argument.
 				for _, arg := range rhs.Args() {
 					v := arg.AsArg().Value()
@@ -546,7 +551,8 @@ func (q *checker) bcheckAssignment(lhs *a.Expr, op t.ID, rhs *a.Expr) error {
 	// other element expression over the same storage: a fact about "x[j]"
 	// does not survive "x[i] = v" (the checker does not track whether i and j
 	// differ), nor a store through a slice, which may alias x.
-	if lhs.Operator() == a.ExprOperatorIndex {
+	// The same holds for assigning a whole array: a slice may alias it.
+	if (lhs.Operator() == a.ExprOperatorIndex) || ((lhs.MType() != nil) && lhs.MType().IsEitherArrayType()) {
 		if err := q.facts.update(func(x *a.Expr) (*a.Expr, error) {
 			if mentionsElementOf(x, containerRoot(lhs)) {
 				return nil, nil
@@ -1997,6 +2003,24 @@ func containerRoot(n *a.Expr) *a.Expr {
 		n = n.LHS().AsExpr()
 	}
 	return n
+}
+
+// mentionsSliceElement returns whether x contains an index expression over a
+// slice (which can alias any array or slice).
+func mentionsSliceElement(x *a.Expr) bool {
+	found := false
+	x.AsNode().Walk(func(o *a.Node) error {
+		if found || (o.Kind() != a.KExpr) {
+			return nil
+		}
+		if o := o.AsExpr(); o.Operator() == a.ExprOperatorIndex {
+			if r := containerRoot(o); (r.MType() != nil) && r.MType().IsEitherSliceType() {
+				found = true
+			}
+		}
+		return nil
+	})
+	return found
 }
 
 // mentionsElementOf returns whether x contains an index expression whose
